@@ -16,6 +16,7 @@ const (
 	KFile NodeKind = iota
 	KDir
 	KSocket
+	KSymlink
 )
 
 type Node struct {
@@ -27,6 +28,7 @@ type Node struct {
 	ReadErrAt int // >=0: EIO when a read reaches this offset
 	ShortRead int // >0: reads return at most this many bytes
 	MTime     time.Time
+	Target    string // KSymlink
 }
 
 //go:norace
@@ -67,12 +69,77 @@ type Mount struct{ From, To string }
 //
 //go:norace
 func (w *World) rp(p string) string {
-	p = clean(p)
 	cur := Cur()
+	cwd := "/"
+	if cur != nil && cur.Cwd != "" {
+		cwd = cur.Cwd
+	}
+	p = w.Phys(cwd, p)
 	if cur == nil || len(cur.Mounts) == 0 {
 		return p
 	}
 	return cur.Resolve(p)
+}
+
+// Symlink creates a symbolic link (harness use).
+//
+//go:norace
+func (w *World) Symlink(target, link string) {
+	w.mu.Lock()
+	w.fs[clean(link)] = &Node{Kind: KSymlink, Target: target, Mode: os.ModeSymlink | 0o777, ReadErrAt: -1, Creator: CurName()}
+	w.nSymlinks++
+	w.mu.Unlock()
+}
+
+// Phys resolves a path the way the kernel does: relative to cwd, component by
+// component, following symbolic links, ".." meaning the parent of the directory
+// actually reached (NOT lexical cleaning: "a/../b" with a symlink "a" is not "b").
+//
+//go:norace
+func (w *World) Phys(cwd, p string) string {
+	if p == "" {
+		return "."
+	}
+	if !strings.HasPrefix(p, "/") {
+		p = cwd + "/" + p
+	}
+	w.mu.Lock()
+	n := w.nSymlinks
+	w.mu.Unlock()
+	if n == 0 {
+		return clean(p)
+	}
+	w.mu.Lock()
+	defer w.mu.Unlock()
+	return w.physLocked(p, 0)
+}
+
+func (w *World) physLocked(p string, depth int) string {
+	cur := ""
+	for _, comp := range strings.Split(p, "/") {
+		switch comp {
+		case "", ".":
+			continue
+		case "..":
+			if i := strings.LastIndex(cur, "/"); i >= 0 {
+				cur = cur[:i]
+			}
+			continue
+		}
+		next := cur + "/" + comp
+		if nd := w.fs[next]; nd != nil && nd.Kind == KSymlink && depth < 16 {
+			t := nd.Target
+			if !strings.HasPrefix(t, "/") {
+				t = cur + "/" + t
+			}
+			next = w.physLocked(t, depth+1)
+		}
+		cur = next
+	}
+	if cur == "" {
+		return "/"
+	}
+	return cur
 }
 
 // Resolve maps an in-namespace path of process p to the global path.
